@@ -30,12 +30,16 @@ EXTRA_OBLIGATIONS = ["T3 lib.rs compile_value body", "T3 lib.rs compile_scss bod
 CASE_TIMEOUT = 60
 
 # ---------------------------------------------------------------------------- T3 guard
+_CV_HEAD = "pubfncompile_value(input:&[u8],format:Format)->Result<Vec<u8>,Error>{" \
+           "letscope=ScopeRef::new_global(format);letvalue=parse_value_data(input)?.evaluate(scope)?;"
+# the two bodies of compile_value the model knows: the repaired one (spec: `replNl` applied, fix 605a7fd) and the
+# earlier one, which is the as-is model under the deviation flag of finding C38-value-newline
+# (all whitespace is removed by the normalisation, also the blank inside the string literal `" "`; that the
+# replacement text is one blank is what the byte-exact correspondence of the `c38v` cases checks)
+COMPILE_VALUE_SPEC = _CV_HEAD + r"""Ok(value.format(format).to_string().replace('\n',"").into_bytes())}"""
+COMPILE_VALUE_OLD = _CV_HEAD + "Ok(value.format(format).to_string().into_bytes())}"
 EXPECTED_BODIES = {
-    "compile_value":
-        "pubfncompile_value(input:&[u8],format:Format)->Result<Vec<u8>,Error>{"
-        "letscope=ScopeRef::new_global(format);"
-        "letvalue=parse_value_data(input)?.evaluate(scope)?;"
-        "Ok(value.format(format).to_string().into_bytes())}",
+    "compile_value": COMPILE_VALUE_SPEC,
     "compile_scss":
         "pubfncompile_scss(input:&[u8],format:Format)->Result<Vec<u8>,Error>{"
         "FsContext::for_cwd().with_format(format).transform("
@@ -89,8 +93,11 @@ def static_checks(ctx):
     except OSError as e:
         return [f"cannot read {path}: {e}"]
     problems = []
+    newline_open = any(f.get("id") == "C38-value-newline" and f.get("status") == "open" for f in vlib.load_findings(ID))
     for name, want in EXPECTED_BODIES.items():
         got = extract_fn(src, name)
+        if name == "compile_value" and got == COMPILE_VALUE_OLD and newline_open:
+            continue    # the body of the as-is model; the witness replay switches the deviation flag on
         if got != want:
             problems.append(f"lib.rs `{name}` is no longer the composition the model assumes: {got!r}")
     return problems
